@@ -37,6 +37,43 @@ LIBEXC = (BTClibValueError, BTClibTypeError, BTClibRuntimeError)
 MAX_MONEY = 21_000_000 * 100_000_000
 
 
+def dec(units: int, places: int = 8) -> Decimal:
+    """units / 10**places as a Decimal built from its digits: exact whatever the ambient decimal context is."""
+    sign = "-" if units < 0 else ""
+    whole, frac = divmod(abs(units), 10**places)
+    return Decimal(f"{sign}{whole}.{frac:0{places}d}")
+
+
+# the ambient decimal context is the caller's, and "what a caller has set that to is no business of a fee rate" (btclib/fee.py):
+# every arithmetic sub-check runs under a generated one (None = Python's default: 28 digits, ROUND_HALF_EVEN)
+CONTEXTS = [None, None, None, {"prec": 50}, {"prec": 16}, {"prec": 12}, {"prec": 9}, {"prec": 6}, {"prec": 3}, {"prec": 1}, {"prec": 28, "rounding": "ROUND_DOWN"}, {"prec": 28, "inexact": True}, {"prec": 7, "rounding": "ROUND_UP", "inexact": True}]
+
+
+class ambient:
+    def __init__(self, spec):
+        self.spec = spec
+
+    def __enter__(self):
+        import decimal
+
+        self.cm = decimal.localcontext()
+        ctx = self.cm.__enter__()
+        if self.spec:
+            ctx.prec = self.spec["prec"]
+            if "rounding" in self.spec:
+                ctx.rounding = getattr(decimal, self.spec["rounding"])
+            if self.spec.get("inexact"):
+                ctx.traps[decimal.Inexact] = True
+        return ctx
+
+    def __exit__(self, *a):
+        return self.cm.__exit__(*a)
+
+
+def ctx_tag(spec):
+    return "ctx=default" if not spec else f"ctx=prec{spec['prec']}" + ("+trap" if spec.get("inexact") else "") + ("+" + spec["rounding"][6:].lower() if "rounding" in spec else "")
+
+
 def cs_len(n: int) -> int:
     return len(tx_ref.compact_size(n))
 
@@ -420,6 +457,7 @@ def direct_case(draw):
         "tx_version": draw(st.sampled_from([1, 2, 2, 3])),
         "lock_time": draw(st.sampled_from([0, 0, 1, 500_000_000, 0xFFFFFFFF])),
         "sequence": draw(st.sampled_from([None, 0, 0xFFFFFFFD, 0xFFFFFFFF])),
+        "ctx": draw(st.sampled_from(CONTEXTS)),
     }
 
 
@@ -429,13 +467,18 @@ def _rate(case):
     if how == "kvb":
         return FeeRate(sats_per_kvbyte=kvb)
     if how == "vb-decimal":
-        return FeeRate.from_sats_per_vbyte(Decimal(kvb) / Decimal(1000))
+        return FeeRate.from_sats_per_vbyte(dec(kvb, 3))
     if how == "vb-str":
         return FeeRate.from_sats_per_vbyte(f"{kvb // 1000}.{kvb % 1000:03d}")
-    return FeeRate.from_btc_per_kvbyte(Decimal(kvb) / Decimal(10**8))
+    return FeeRate.from_btc_per_kvbyte(dec(kvb))
 
 
 def check_direct(case):
+    with ambient(case.get("ctx")):
+        return _check_direct(case)
+
+
+def _check_direct(case):
     n_in, n_out = case["n_in"], case["n_out"]
     kinds = [case["kinds"][k % len(case["kinds"])] for k in range(n_in)]
     spks = [SPK_KINDS[k] for k in kinds]
@@ -593,12 +636,18 @@ def fee_case(draw):
         "spk": draw(st.one_of(st.sampled_from(CHANGE_SCRIPTS), g.hexbytes(0, 45), st.sampled_from(["00" * 252, "00" * 253, "51" * 10000, "51" * 10001, "6a" + "00" * 10000]))),
         "vb_text": draw(st.one_of(st.none(), st.tuples(st.integers(0, 10**6), st.integers(0, 99999), st.integers(0, 5)))),
         "bad": draw(st.sampled_from([None, None, "neg-vsize", "neg-rate", "neg-anc", "float-vsize", "bool-vsize", "nan", "inf", "comma", "neg-vb", "anc-fee-over", "str-kvb", "none-btc"])),
+        "ctx": draw(st.sampled_from(CONTEXTS)),
     }
 
 
 def check_fee(case):
+    with ambient(case.get("ctx")):
+        return _check_fee(case)
+
+
+def _check_fee(case):
     kvb, vsize = case["kvb"], case["vsize"]
-    tags = []
+    tags = [ctx_tag(case.get("ctx"))]
     rate = FeeRate(sats_per_kvbyte=kvb)
     want = ceil_div(kvb * vsize, 1000)
     got = fee_from_vsize(vsize, rate)
@@ -622,7 +671,7 @@ def check_fee(case):
     if back.sats_per_kvbyte != kvb or FeeRate.from_sats_per_vbyte(str(spv)).sats_per_kvbyte != kvb:
         raise Violation("fee:sats_per_vbyte-round-trip", f"{kvb} -> {spv} -> {back.sats_per_kvbyte}")
     if kvb <= MAX_MONEY:
-        btc = Decimal(kvb) / Decimal(10**8)
+        btc = dec(kvb)
         if Fraction(btc) != Fraction(kvb, 10**8):
             raise HarnessError("decimal context lost digits")
         r2 = FeeRate.from_btc_per_kvbyte(btc)
@@ -704,12 +753,18 @@ def amount_case(draw):
         "sub": draw(st.integers(1, 999)),  # thousandths of a satoshi
         "spelling": draw(st.sampled_from(["decimal", "str", "str-padded", "sci", "int-if-whole", "float"])),
         "dust": draw(st.one_of(st.just(0), st.integers(0, 10**6))),
+        "ctx": draw(st.sampled_from(CONTEXTS)),
     }
 
 
 def check_amount(case):
+    with ambient(case.get("ctx")):
+        return _check_amount(case)
+
+
+def _check_amount(case):
     sats = case["sats"]
-    tags = []
+    tags = [ctx_tag(case.get("ctx"))]
     btc = btc_from_sats(sats)
     if not isinstance(btc, Decimal) or Fraction(btc) != Fraction(sats, 10**8):
         raise Violation("amount:btc_from_sats-not-exact", f"{sats} -> {btc!r}")
@@ -718,7 +773,7 @@ def check_amount(case):
     whole, frac = divmod(sats, 10**8)
     how = case["spelling"]
     spelled = {
-        "decimal": Decimal(sats) / Decimal(10**8),
+        "decimal": dec(sats),
         "str": f"{whole}.{frac:08d}",
         "str-padded": f"{whole}.{frac:08d}000",
         "sci": f"{sats}e-8",
@@ -749,7 +804,7 @@ def check_amount(case):
     if ok != (sats >= dust):
         raise Violation("amount:dust-floor-sats", f"{sats} with dust {dust}: accepted={ok}")
     try:
-        valid_btc_amount(btc, Decimal(dust) / Decimal(10**8))
+        valid_btc_amount(btc, dec(dust))
         ok = True
     except BTClibValueError:
         ok = False
@@ -760,8 +815,8 @@ def check_amount(case):
     for name, call in (
         ("valid_sats_amount", lambda: valid_sats_amount(outside)),
         ("btc_from_sats", lambda: btc_from_sats(outside)),
-        ("sats_from_btc", lambda: sats_from_btc(Decimal(outside) / Decimal(10**8))),
-        ("valid_btc_amount", lambda: valid_btc_amount(format(Decimal(outside) / Decimal(10**8), "f"))),
+        ("sats_from_btc", lambda: sats_from_btc(dec(outside))),
+        ("valid_btc_amount", lambda: valid_btc_amount(format(dec(outside), "f"))),
         ("TxOut", lambda: TxOut(outside, "51")),
     ):
         try:
@@ -770,7 +825,7 @@ def check_amount(case):
             continue
         raise Violation(f"amount:outside-range-accepted:{name}", f"{outside} -> {out!r}")
     # a fraction of a satoshi
-    sub = Decimal(sats) / Decimal(10**8) + Decimal(case["sub"]) / Decimal(10**11)
+    sub = dec(sats * 1000 + case["sub"], 11)
     for spelled_sub in (sub, format(sub, "f")):
         try:
             out = sats_from_btc(spelled_sub)
